@@ -1126,6 +1126,29 @@ func ruleOrder(c *Ctx, r *Rep) {
 		}
 		r.Check(depth == 1, "single-pass|"+bk, c.Pos(gen.site.Pos()), "the generation step sits in exactly one loop of BulkUpdate (one pass over the plan, in the plan's order)", sprintf("nested in %d loops", depth))
 	}
+	// the plan keeps the order in which the planner appended to it: nothing sorts, reverses or otherwise rearranges a
+	// list of changes anywhere in the module (creations before replacements puts a new subject in front of its issuer)
+	{
+		isChangeList := func(t types.Type) bool {
+			sl, ok := t.Underlying().(*types.Slice)
+			return ok && strings.HasSuffix(typeShort(c, sl.Elem()), "db.Change")
+		}
+		var bad []string
+		for _, f := range c.Funcs {
+			for _, ci := range callsIn(f) {
+				name := calleeFullName(ci)
+				if !(strings.HasPrefix(name, "sort.") || strings.HasPrefix(name, "slices.Sort") || strings.HasPrefix(name, "slices.Reverse")) {
+					continue
+				}
+				for _, a := range ci.Common().Args {
+					if isChangeList(unwrapIface(a).Type()) {
+						bad = append(bad, name+" at "+c.Pos(ci.Pos()))
+					}
+				}
+			}
+		}
+		r.Check(len(bad) == 0, "plan-order-kept", c.FnPos(bulk), "no list of planned changes is sorted or rearranged", strings.Join(bad, "; "))
+	}
 	// all three for the same change of the list, in list order
 	elem := "P(" + bk + "." + bulk.Params[1].Name() + ")[]"
 	aliasOrigin := func(st *step, argIdx int) []string {
